@@ -40,3 +40,30 @@ func init() {
 		Assumptions: commonAssumptions,
 	})
 }
+
+func init() {
+	register("C15", &propDef{
+		Rules: []ruleDef{
+			{"C15.name-families", ruleC15NameFamilies, ""},
+			{"C15.curseg-live", ruleC15CurSegLive, ""},
+			{"C15.remove-order", ruleC15RemoveOrder, ""},
+		},
+		Explanation: "Decides: (name-families) by abstract evaluation of every file-name expression reaching FileSystem.OpenFile/Remove/Rename through the call string, every removed name family is one the package creates, and every per-segment family that is created (segment file, its .pmt side file) is removed by removeSegment; recovery backups are removed; (curseg-live) every I/O through datalog.curSeg is behind the test '!curSeg.meta.Full' or a swapSegment, so a current segment that compaction sealed, closed and removed is never used; (remove-order) a segment is forgotten and closed before its files are unlinked, compact() returns nil only after removeSegment, Compact counts a segment only after compact() returned nil. NOT decided: boundedness of directory size, descriptors and mappings over time.",
+		Assumptions: commonAssumptions,
+	})
+	register("C04", &propDef{
+		Rules: []ruleDef{
+			{"C04.size-mirror", ruleC04SizeMirror, ""},
+			{"C04.unlock-owner", ruleCloseOrder, ""},
+		},
+		Explanation: "Decides: (size-mirror) every length-changing call (Write, WriteAt, Truncate) made on the fs.File embedded in a pogreb.file assigns file.size of the same file on each success path (or is the reviewed in-place bucket rewrite / the function-local gob writer), so the in-memory append position cannot diverge from the file length after recovery truncates a torn tail; (unlock-owner) only a completed DB.Close releases the lock file, after all other steps, so an interrupted recovery is redone. NOT decided: contents along chains of crash images; idempotence of recovery as such.",
+		Assumptions: commonAssumptions,
+	})
+	register("C19", &propDef{
+		Rules: []ruleDef{
+			{"C19.alloc-bound", ruleC19AllocBound, ""},
+		},
+		Explanation: "Decides with a forward value-flow (taint) analysis over every function reachable from recovery and segment iteration: no make/Grow/CopyN is sized by a value decoded from file bytes (binary.LittleEndian.UintN and arithmetic on it) unless the allocation is control dependent on a comparison 'tainted <= untainted bound' (the file length or a constant). NOT decided: total work/time of recovery; allocations inside encoding/gob (metadata is discarded by recovery).",
+		Assumptions: commonAssumptions,
+	})
+}
